@@ -18,6 +18,14 @@ using namespace Gudhi::persistence_fields;
 
 template class Gudhi::persistence_fields::Zp_field_operators<unsigned int>;
 template class Gudhi::persistence_fields::Zp_field_element<65521>;
+// the element type is a documented template parameter ("unsigned int, long unsigned int, etc."): narrower and wider
+template class Gudhi::persistence_fields::Zp_field_operators<unsigned short>;
+template class Gudhi::persistence_fields::Zp_field_operators<unsigned long>;
+// (Zp_field_element with a non-default element type is instantiated through its arithmetic below: some of its
+// other members only compile for the default type)
+template class Gudhi::persistence_fields::Shared_Zp_field_element<unsigned short>;
+template class Gudhi::persistence_fields::Shared_Zp_field_element<unsigned long>;
+// (the small multi-field classes do not compile with a non-default element type: not a shipped configuration)
 template class Gudhi::persistence_fields::Shared_Zp_field_element<unsigned int>;
 template class Gudhi::persistence_fields::Multi_field_element_with_small_characteristics<2, 23>;
 template class Gudhi::persistence_fields::Shared_multi_field_element_with_small_characteristics<unsigned int>;
@@ -39,6 +47,10 @@ template void gsa_use_value<Zp_field_element<65521>, long>(long);
 template void gsa_use_value<Zp_field_element<65521>, short>(short);
 template void gsa_use_value<Zp_field_element<65521>, unsigned int>(unsigned int);
 template void gsa_use_value<Zp_field_element<65521>, unsigned long>(unsigned long);
+template void gsa_use_value<Zp_field_element<65521, unsigned short>, int>(int);
+template void gsa_use_value<Zp_field_element<65521, unsigned long>, int>(int);
+template void gsa_use_value<Shared_Zp_field_element<unsigned short>, int>(int);
+template void gsa_use_value<Shared_Zp_field_element<unsigned long>, long>(long);
 template void gsa_use_value<Shared_Zp_field_element<unsigned int>, int>(int);
 template void gsa_use_value<Shared_Zp_field_element<unsigned int>, long>(long);
 template void gsa_use_value<Shared_Zp_field_element<unsigned int>, unsigned int>(unsigned int);
@@ -53,6 +65,8 @@ template <class Ops, class I>
 void gsa_use_ops(const Ops& ops, I v) {
   (void)ops.get_value(v);
 }
+template void gsa_use_ops<Zp_field_operators<unsigned short>, int>(const Zp_field_operators<unsigned short>&, int);
+template void gsa_use_ops<Zp_field_operators<unsigned long>, long>(const Zp_field_operators<unsigned long>&, long);
 template void gsa_use_ops<Zp_field_operators<unsigned int>, int>(const Zp_field_operators<unsigned int>&, int);
 template void gsa_use_ops<Zp_field_operators<unsigned int>, long>(const Zp_field_operators<unsigned int>&, long);
 template void gsa_use_ops<Zp_field_operators<unsigned int>, short>(const Zp_field_operators<unsigned int>&, short);
